@@ -170,8 +170,8 @@ def run(tier, seed, replay=None):
     assert_repo_import()
     chk = Check("C04", tier, seed)
     model_ok = chk.proof_stage(["Scope/ShiftProofs.vo"])
-    per_file = 12 if tier == "quick" else 200
-    n_gen = 40 if tier == "quick" else 600
+    per_file = 12 if tier == "quick" else 60
+    n_gen = 40 if tier == "quick" else 250
     jobs = []
     for lang in LC.LANGS:
         items = []
